@@ -47,6 +47,7 @@ JudgeC05(e) ==
                 /\ SubSeq(g, n - 1, n) # SubSeq(f, n - 1, n) /\ e.outf = "msg") THEN "triv"
            ELSE IF e.outg # "msg" THEN "C05:valnone-rejected"
            ELSE IF e.attrsg # e.attrsf THEN "C05:valnone-attributes-differ"
+           ELSE IF "sersame" \in DOMAIN e /\ e.sersame = 0 THEN "C05:valnone-message-serialises-differently-from-the-intact-one"
            ELSE "ok"
 
 \* ---- C04: whatever route built it, a message serialises to a well-formed frame
